@@ -526,6 +526,9 @@ pub fn store_histories() -> Vec<(&'static str, Vec<Op>)> {
                 ann("a2", simple(tx("r2", 0, 2)), vec![k1("x")]),
                 ann("a3", simple(tx("r2", 3, 5)), vec![k1("y")]),
                 ann("a4", simple(tx("r1", 0, 2)), vec![k2(1)]),
+                // the text "a" is annotated in both resources, and in the second one at a position before the last occurrence
+                // in the first (a text search that runs over several resources must start each one from its beginning)
+                ann("a5", simple(tx("r2", 3, 4)), vec![k1("y")]),
             ],
         ),
         (
